@@ -163,6 +163,30 @@ static inline uint64_t pattern_sample(const Pattern & p, const DType & dt, int64
         int64_t pos = (rb >> 8) % 3 == 0 ? 0 : (rb >> 8) % 3 == 1 ? bl - 1 : bl / 2;
         return (k % bl) == pos ? ((c0 + 1) & m) : c0;
     }
+    if (p.kind == "spike2") {
+        // as "spike", but the deviating sample may sit anywhere: inside the first or the last byte of a sub-byte block
+        // (samples 1..7 / the last 8), next to the edges, in the middle or at a random position; the deviation is +1 or a bit flip
+        int64_t bl = p.p1 > 0 ? p.p1 : 64;
+        uint64_t c0 = (p.seed >> 8) & m;
+        uint64_t rb = mix64(p.seed ^ 0x5b1e2, (uint64_t) (k / bl));
+        if (rb % 4 == 0) return c0;
+        uint64_t q = rb >> 16;
+        int64_t pos;
+        switch ((rb >> 8) % 8) {
+            case 0: pos = 0; break;
+            case 1: pos = 1; break;
+            case 2: pos = 1 + (int64_t) (q % 7); break;
+            case 3: pos = bl - 1; break;
+            case 4: pos = bl - 2; break;
+            case 5: pos = bl - 1 - (int64_t) (q % 8); break;
+            case 6: pos = bl / 2; break;
+            default: pos = (int64_t) (q % (uint64_t) bl); break;
+        }
+        if (pos < 0) pos = 0;
+        if (pos >= bl) pos = bl - 1;
+        uint64_t dev = (rb >> 40) & 1 ? ((c0 + 1) & m) : (c0 ^ (1ull << ((rb >> 41) % (uint64_t) dt.bits)));
+        return (k % bl) == pos ? dev : c0;
+    }
     if (p.kind == "extremes") { switch (r % 4) { case 0: return 0; case 1: return m; case 2: return (m >> 1); default: return (m >> 1) + 1; } }
     if (p.kind == "small") return (r % 3) & m;
     return r & m;  // random, rawbits, nan_sprinkled (integers have no NaN), offset
